@@ -3,7 +3,7 @@
 # /tmp/seed6/<ID>.base).  For each delivered mutant the combined patch (refactor + mutant) against /repo HEAD is built
 # and validated like any other seed; kept as seeded/<ID>-11 / <ID>-12 with base.txt naming the refactor.
 mkdir -p /tmp/seed6/combined
-for d in /tmp/seed6/C*/out; do
+for d in /tmp/seed6/${ONLY:-C*}/out; do
   id=$(basename $(dirname $d))
   base=$(cat /tmp/seed6/$id.base)
   for k in 1 2; do
